@@ -210,6 +210,21 @@ class Check(Property):
                     v.append(f"{tag}: <= / >= disagree with the base-unit magnitudes")
             except Exception as exc:  # noqa: BLE001
                 v.append(f"{tag}: ordering of comparable quantities raised {type(exc).__name__}: {exc}")
+            # the same comparison with int / float magnitudes (other code paths), when the values are clearly apart
+            if va != vb and abs(va - vb) > Fraction(1, 10 ** 6) * max(abs(va), abs(vb)):
+                for conv_ in (float, int):
+                    ma, mb = Fraction(c["a"]["m"]), Fraction(c["b"]["m"])
+                    if conv_ is int and (ma.denominator != 1 or mb.denominator != 1):
+                        continue
+                    try:
+                        af, bf = u.Quantity(conv_(ma), a.units), u.Quantity(conv_(mb), b.units)
+                        res = (bool(af < bf), bool(af > bf), bool(af <= bf), bool(af >= bf), bool(af == bf))
+                        want_ = (va < vb, va > vb, va <= vb, va >= vb, False)
+                        if res != want_:
+                            v.append(f"{tag}: with {conv_.__name__} magnitudes (<, >, <=, >=, ==) = {res}, the base-unit magnitudes "
+                                     f"{float(va)} vs {float(vb)} give {want_}")
+                    except Exception as exc:  # noqa: BLE001
+                        v.append(f"{tag}: comparison with {conv_.__name__} magnitudes raised {type(exc).__name__}: {exc}")
         # transitivity through a third spelling of a
         if eq and not mixing:
             P = regs.pools()
